@@ -162,38 +162,38 @@ class Peer:
 
     def recv_dimse(self, timeout=3.0):
         """Reassemble one DIMSE message.  Returns dict(ctx, cmd(dict), cmd_bytes, data(bytes|None), pdus=[...]) or a
-        non-PDATA PDU dict / {"type":"EOF"} / None on timeout."""
+        non-PDATA PDU dict / {"type":"EOF"} / None on timeout.  A message that is only partly received when the
+        timeout expires is kept and completed by the next call."""
         deadline = time.time() + timeout
-        cmd_b = b""
-        data_b = None
-        ctx = None
-        cmd_done = False
-        cmd = None
-        pdus = []
+        st = self.__dict__.setdefault("_partial", {"cmd_b": b"", "data_b": None, "ctx": None, "cmd_done": False, "cmd": None, "pdus": []})
+
+        def done(**kw):
+            out = dict(type="DIMSE", ctx=st["ctx"], cmd=st["cmd"], cmd_bytes=st["cmd_b"], data=st["data_b"], pdus=st["pdus"], **kw)
+            self.__dict__["_partial"] = {"cmd_b": b"", "data_b": None, "ctx": None, "cmd_done": False, "cmd": None, "pdus": []}
+            return out
         while True:
             while self.pdv_buf:
                 pd = self.pdv_buf.pop(0)
                 raw = bytes.fromhex(pd["data"])
                 hdr, frag = raw[0], raw[1:]
-                ctx = pd["id"] if ctx is None else ctx
+                st["ctx"] = pd["id"] if st["ctx"] is None else st["ctx"]
                 if hdr & 1:
-                    cmd_b += frag
+                    st["cmd_b"] += frag
                     if hdr & 2:
-                        cmd_done = True
-                        cmd = cmdset.decode(cmd_b)
-                        if cmd.get("CommandDataSetType", 0x0101) == 0x0101:
-                            return dict(type="DIMSE", ctx=ctx, cmd=cmd, cmd_bytes=cmd_b, data=None, pdus=pdus)
+                        st["cmd_done"] = True
+                        st["cmd"] = cmdset.decode(st["cmd_b"])
+                        if st["cmd"].get("CommandDataSetType", 0x0101) == 0x0101:
+                            return done()
                 else:
-                    data_b = (data_b or b"") + frag
+                    st["data_b"] = (st["data_b"] or b"") + frag
                     if hdr & 2:
-                        return dict(type="DIMSE", ctx=ctx, cmd=cmd, cmd_bytes=cmd_b, data=data_b, pdus=pdus,
-                                    data_before_command=not cmd_done)
+                        return done(data_before_command=not st["cmd_done"])
             v = self.recv_pdu(max(0.0, deadline - time.time()))
             if v is None:
                 return None
             if v["type"] != "PDATA":
                 return v
-            pdus.append(v)
+            st["pdus"].append(v)
             self.pdv_buf.extend(v["pdvs"])
 
     def echo(self, ctx_id=1, msg_id=1, timeout=3.0):
